@@ -248,6 +248,12 @@ func c18Cases(thorough bool) []c18Case {
 		for _, rd := range rl {
 			for _, p := range ePops {
 				cs = append(cs, c18Case{Block: "E", Entries: []c18Entry{{Type: "registry", RepoAllow: ra, RepoDeny: rd, Allow: []string{"v.*"}}}, Action: "copy", Src: p.Src, Tgt: p.Tgt, App2: true})
+				if p == ePops[0] || thorough {
+					// the source hands out its catalogue in pages (some of which the filter empties)
+					for _, cp := range []int{1, 2, 3} {
+						cs = append(cs, c18Case{Block: "E", Entries: []c18Entry{{Type: "registry", RepoAllow: ra, RepoDeny: rd, Allow: []string{"v.*"}}}, Action: "copy", Src: p.Src, Tgt: p.Tgt, App2: true, CatPage: cp})
+					}
+				}
 			}
 		}
 	}
